@@ -51,7 +51,7 @@ func (check) Cases(tier string) int {
 }
 
 func (check) Rule() string {
-	return "one JSON document per case: top-level object (1 in 12: list) of depth <= 4 over a pool of plain keys, odd keys (spaces, unicode, punctuation, YAML look-alikes such as true, ~, #c) and, in 1 document of 8, keys containing '.'; leaves: strings over a wide alphabet (ASCII punctuation, control characters, DEL/C1, NEL, NBSP, LS/PS, BOM, U+FFFE/FFFF, Latin-1, combining marks, CJK, non-BMP) or from a pool of look-alikes (true, null, ~, 1e3, 0x1F, 2001-12-14, '# c', '[1,2]', triple quotes ...), integers within +-2^53, floats (fractions, tiny, huge, integral, -0), booleans, nulls, {} and []; lists of one leaf kind, of objects, or mixed; half of the object documents carry top-level string variables (plain words, or wide-alphabet text for pure references) that other strings reference as ${name} -- pure, or spliced behind a literal prefix, one or two names per string -- plus $$ escapes, $${x} and lone $; rendered compact / spaced / indented 1-8 / loose (random blanks) with sorted or shuffled keys, floats in g/e/f/f.0 form, and only the escapes all three grammars share (backslash-quote, double backslash, \\b \\f \\n \\r \\t, \\uXXXX for BMP). The document is used only if yaml.v2, encoding/json and hjson-go decode it to the same data as the generating tree (else prefilter_rejected). It is loaded by the three NewConfig and the three NewConfigWithFile functions under none / PathSep / VarExp / PathSep+VarExp / VarExp+PathSep (PathSep skipped when a key contains '.'), observed by Unpack into map, slice and two types fitted to the document with reflect.StructOf (struct / *struct with config tags, map[string]T, []T, [N]T, int64 int int32 uint64 uint float64 string bool, pointers to them, interface{}), and compared three-way, with the tree (VarExp: with the expanded tree), and file against memory. Where the document nests objects, a second spelling with dictionary (and some list) edges folded at random depth into dotted keys (server.tls.port, l.0, l.1) is loaded too under every PathSep combination and must mean exactly the same. Missing files must give an error and no config. Then two faults (23 kinds: conversions, overflow, negative into unsigned, min/max/positive/nonzero/required validators, and faults reported at containers -- object or list for a primitive, wrong array length, a failing struct Validate(), nonzero/required on empty lists and objects, a required field whose key is absent below an object, a String getter for an absent key through Child handles) are grafted at random paths of 1-5 keys/indices; each is loaded once without and once with PathSep, the latter with keys folded preferably along the path so that the containers exist only implicitly; the six loaders' errors must name the full dotted path as a delimited token, the file loaders' errors must contain the file name (or its base name), the in-memory ones must not. Non-trivial = at least one nested container and at least 3 leaves; distinct = distinct document text."
+	return "one JSON document per case: top-level object (1 in 12: list) of depth <= 4 over a pool of plain keys, odd keys (spaces, unicode, punctuation, YAML look-alikes such as true, ~, #c) and, in 1 document of 8, keys containing '.'; leaves: strings over a wide alphabet (ASCII punctuation, control characters, DEL/C1, NEL, NBSP, LS/PS, BOM, U+FFFE/FFFF, Latin-1, combining marks, CJK, non-BMP) or from a pool of look-alikes (true, null, ~, 1e3, 0x1F, 2001-12-14, '# c', '[1,2]', triple quotes ...), integers within +-2^53, floats (fractions, tiny, huge, integral, -0), booleans, nulls, {} and []; lists of one leaf kind, of objects, or mixed; half of the object documents carry top-level string variables (plain words, or wide-alphabet text for pure references) that other strings reference as ${name} -- pure, or spliced behind a literal prefix, one or two names per string -- plus $$ escapes, $${x} and lone $; rendered compact / spaced / indented 1-8 / loose (random blanks) with sorted or shuffled keys, floats in g/e/f/f.0 form, and only the escapes all three grammars share (backslash-quote, double backslash, \\b \\f \\n \\r \\t, \\uXXXX for BMP). The document is used only if yaml.v2, encoding/json and hjson-go decode it to the same data as the generating tree (else prefilter_rejected). It is loaded by the three NewConfig and the three NewConfigWithFile functions under none / PathSep / VarExp / PathSep+VarExp / VarExp+PathSep (PathSep skipped when a key contains '.'), observed by Unpack into map, slice and two types fitted to the document with reflect.StructOf (struct / *struct with config tags, map[string]T, []T, [N]T, int64 int int32 uint64 uint float64 string bool, pointers to them, interface{}), and compared three-way, with the tree (VarExp: with the expanded tree), and file against memory. Where the document nests objects, a second spelling with dictionary (and some list) edges folded at random depth into dotted keys (server.tls.port, l.0, l.1) is loaded too under every PathSep combination and must mean exactly the same. Missing files must give an error and no config. Then two faults (23 kinds: conversions, overflow, negative into unsigned, min/max/positive/nonzero/required validators, and faults reported at containers -- object or list for a primitive, wrong array length, a failing struct Validate(), nonzero/required on empty lists and objects, a required field whose key is absent below an object, a String getter for an absent key through Child handles) are grafted at random paths of 1-5 keys/indices; each is loaded once without and once with PathSep, the latter with keys folded preferably along the path so that the containers exist only implicitly; the six loaders' errors must name the full dotted path as a delimited token, the file loaders' errors must contain the file name (or its base name), the in-memory ones must not. One more fault per case is reported against the TOP-LEVEL config of a document whose top level has no named keys ({}, [] or a list of generated elements): a required key that is absent, a String getter for an absent key, the top level unpacked into an array of another length or into a struct whose Validate() fails; the file loaders' errors must name the file there too. Finally one option slice with spare capacity (make(n, n+k) with or without sentinel options behind len, or grown by append; the combination's options possibly between options restating the defaults) is reused for a sequence of 3-6 loads drawn from the six loader functions: after every call the caller's backing array up to cap must be bit-identical, and every load must unpack (generic, typed, error text of a missing required key) exactly like the same load done alone with a fresh option list. Non-trivial = at least one nested container and at least 3 leaves; distinct = distinct document text."
 }
 
 func (check) Assumptions() []string {
@@ -62,6 +62,7 @@ func (check) Assumptions() []string {
 		"typed targets never put pointers inside slices or maps and never point to maps, slices or arrays (C06/C07 report those shapes); numbers are never unpacked into strings, floats never into integers",
 		"errors are inspected only for containing the file name (full or base name) and the dotted path as a delimited token (neighbours are not letters, digits, _ . -), independent of wording, reason or type (C14); an error naming another known path of the document instead is error-names-wrong-path, none error-lacks-path; whether a fault is raised at all is C03/C04's business: if no front-end raises it the case is only counted (fault_not_raised_by_any_frontend)",
 		"list elements before the faulty one are null or conform to the target, because Unpack reports the first error in list order",
+		"func values of the option slice are compared as machine words (unsafe); the sentinel options behind len are never meant to be read by a correct loader",
 		"not demanded: integers beyond +-2^53 (an integral float is never printed as a plain integer literal beyond 2^53), decoder syntax errors, YAML-only or HJSON-only syntax, which MetaData wins when the caller passes one to a *WithFile loader",
 	}
 }
@@ -1199,6 +1200,14 @@ func tmpRootDir() string { return filepath.Join(harness.Root, "work", "C18tmp") 
 
 var fileStems = []string{"doc", "doc", "my conf", "cfg-ü", "a.b", "x(1)"}
 
+// variant is one spelling of the case's document (nested, or with folded
+// dotted keys) and the files holding it.
+type variant struct {
+	label string
+	text  []byte
+	paths map[string]string
+}
+
 // view is one way of looking at a loaded config: [0] the generic targets
 // (obs.Top), [1..] the fitted typed targets.
 type view struct {
@@ -1337,11 +1346,6 @@ func (check) Run(seed int64, tier string, idx int, verbose bool) harness.Result 
 
 	// the same document with dictionary edges folded into dotted keys, for the
 	// loads with PathSep: there it must mean exactly what the nested text means
-	type variant struct {
-		label string
-		text  []byte
-		paths map[string]string
-	}
 	variants := []variant{{"nested", text, paths}}
 	if !g.hasDot {
 		fo := &folder{r: r, objOdds: 2, listOdds: 3}
@@ -1502,6 +1506,8 @@ func (check) Run(seed int64, tier string, idx int, verbose bool) harness.Result 
 	for f := 0; f < 2; f++ {
 		faultPhase(res, r, g, tree, dir, stem, verbose)
 	}
+	topLevelPhase(res, r, tree, g.hasDot, dir, stem, verbose)
+	sequencePhase(res, r, g, variants, types[0], dir, verbose)
 	return res.Done()
 }
 
@@ -1978,10 +1984,6 @@ func faultPhase(res *harness.R, r *rand.Rand, g *docGen, tree *model.Node, dir, 
 		if verbose {
 			fmt.Println("fault:", ctx)
 		}
-		type outcome struct {
-			loaded bool
-			err    error
-		}
 		var fileOut, memOut [3]outcome
 		var files [3]string
 		for i, l := range loaders {
@@ -2032,36 +2034,6 @@ func faultPhase(res *harness.R, r *rand.Rand, g *docGen, tree *model.Node, dir, 
 				}
 			}
 		}
-		// was the fault raised at all? (raising it is C03/C04's business; the
-		// front-ends only have to agree about it)
-		raised := 0
-		total := 0
-		for i := range loaders {
-			for _, o := range []outcome{fileOut[i], memOut[i]} {
-				if o.loaded {
-					total++
-					if o.err != nil {
-						raised++
-					}
-				}
-			}
-		}
-		if total == 0 {
-			continue
-		}
-		if raised == 0 {
-			res.Ev("fault_not_raised_by_any_frontend", 1)
-			res.SetAdd("fault_not_raised", fk.name)
-			continue
-		}
-		if raised != total {
-			var l []string
-			for i, ld := range loaders {
-				l = append(l, fmt.Sprintf("%s: file=%v memory=%v", ld.name, fileOut[i].err, memOut[i].err))
-			}
-			res.Violate("frontends-disagree:fault-raised", "the fault is reported by %d of %d loads: %s; %s", raised, total, strings.Join(l, " | "), ctx)
-			continue
-		}
 		// input class of the fault for the signatures
 		class := fk.class
 		if len(steps) == 1 {
@@ -2072,39 +2044,85 @@ func faultPhase(res *harness.R, r *rand.Rand, g *docGen, tree *model.Node, dir, 
 		if foldedOnPath {
 			class += ":dotted-key"
 		}
-		res.SetAdd("fault_class", class)
-		var lacking []int
-		nLoaded := 0
-		for i := range loaders {
-			if fileOut[i].loaded {
-				nLoaded++
-				if !namesFile(fileOut[i].err.Error(), files[i]) {
-					lacking = append(lacking, i)
+		faultVerdict(res, fk.name, class, path, known, fileOut, memOut, files, dir, ctx)
+	}
+}
+
+type outcome struct {
+	loaded bool
+	err    error
+}
+
+// faultVerdict judges the errors of the six loads of one fault document:
+// raised by all or none; file loads name their file, memory loads no file;
+// the dotted path (if the fault has one) is named as a delimited token.
+func faultVerdict(res *harness.R, kind, class, path string, known []string, fileOut, memOut [3]outcome, files [3]string, dir, ctx string) {
+	// was the fault raised at all? (raising it is C03/C04's business; the
+	// front-ends only have to agree about it)
+	raised := 0
+	total := 0
+	for i := range loaders {
+		for _, o := range []outcome{fileOut[i], memOut[i]} {
+			if o.loaded {
+				total++
+				if o.err != nil {
+					raised++
 				}
 			}
 		}
-		for k, i := range lacking {
-			who := loaders[i].name
-			if len(lacking) == nLoaded && nLoaded > 1 {
-				// every front-end that loaded the file is affected: go-ucfg's core, not a front-end
-				if k > 0 {
-					continue
-				}
-				who = "all-loaders"
-			}
-			res.Violate("error-lacks-source:"+who+":"+class, "%s.NewConfigWithFile(%q): error %q does not mention the file (%d of %d loaders affected); %s",
-				loaders[i].name, files[i], fileOut[i].err.Error(), len(lacking), nLoaded, ctx)
+	}
+	if total == 0 {
+		return
+	}
+	if raised == 0 {
+		res.Ev("fault_not_raised_by_any_frontend", 1)
+		res.SetAdd("fault_not_raised", kind)
+		return
+	}
+	if raised != total {
+		var l []string
+		for i, ld := range loaders {
+			l = append(l, fmt.Sprintf("%s: file=%v memory=%v", ld.name, fileOut[i].err, memOut[i].err))
 		}
-		for i, l := range loaders {
-			if fileOut[i].loaded {
+		res.Violate("frontends-disagree:fault-raised", "the fault is reported by %d of %d loads: %s; %s", raised, total, strings.Join(l, " | "), ctx)
+		return
+	}
+	res.SetAdd("fault_class", class)
+	var lacking []int
+	nLoaded := 0
+	for i := range loaders {
+		if fileOut[i].loaded {
+			nLoaded++
+			if !namesFile(fileOut[i].err.Error(), files[i]) {
+				lacking = append(lacking, i)
+			}
+		}
+	}
+	for k, i := range lacking {
+		who := loaders[i].name
+		if len(lacking) == nLoaded && nLoaded > 1 {
+			// every front-end that loaded the file is affected: go-ucfg's core, not a front-end
+			if k > 0 {
+				continue
+			}
+			who = "all-loaders"
+		}
+		res.Violate("error-lacks-source:"+who+":"+class, "%s.NewConfigWithFile(%q): error %q does not mention the file (%d of %d loaders affected); %s",
+			loaders[i].name, files[i], fileOut[i].err.Error(), len(lacking), nLoaded, ctx)
+	}
+	for i, l := range loaders {
+		if fileOut[i].loaded {
+			if path != "" {
 				pathVerdict(res, l.name+"-withfile", withoutFile(fileOut[i].err.Error(), files[i]), path, known, ctx)
-				res.Ev("source_checked", 1)
 			}
-			if memOut[i].loaded {
-				msg := memOut[i].err.Error()
-				if namesFile(msg, files[i]) || strings.Contains(msg, dir) {
-					res.Violate("memory-error-mentions-source:"+l.name, "%s.NewConfig: error %q names the file although the bytes were passed in memory; %s", l.name, msg, ctx)
-				}
+			res.Ev("source_checked", 1)
+		}
+		if memOut[i].loaded {
+			msg := memOut[i].err.Error()
+			if namesFile(msg, files[i]) || strings.Contains(msg, dir) {
+				res.Violate("memory-error-mentions-source:"+l.name, "%s.NewConfig: error %q names the file although the bytes were passed in memory; %s", l.name, msg, ctx)
+			}
+			if path != "" {
 				pathVerdict(res, l.name, msg, path, known, ctx)
 			}
 		}
